@@ -536,6 +536,17 @@ func c11Check(w *bWorld, history []int, all bool, probes []c11Probe) (viol []rep
 			}
 		}
 	}
+	// a service without a live owner leaves nothing behind in the routing state: a binding that
+	// survived its method's last handler answers for a method nobody serves and stands in the
+	// way of whoever registers that path next
+	if len(viol) == 0 && len(history) > 0 {
+		fp := sys.fingerprint()
+		for _, svc := range []string{"S1", "S2"} {
+			if len(ref.owners(svc)) == 0 && strings.Contains(fp, "/vb."+svc+"/") {
+				mk("stale-binding-after-drop", fmt.Sprintf("vb.%s has no live owner, the routing state still names its methods: %s", svc, truncS(fp, 600)), len(history)-1)
+			}
+		}
+	}
 	return viol, ref.key(), sys.fingerprint(), picks
 }
 
